@@ -2,6 +2,7 @@
 from __future__ import annotations
 
 import operator
+from decimal import Decimal
 from fractions import Fraction
 
 from .. import core, kit, model, oracle
@@ -43,6 +44,9 @@ def run(ctx):
         lo, hi, _ = orc.unit_size(u)
         size = (lo + hi) / 2
         mag = core.sf(value / size)
+        if rng.random() < 0.25:
+            ctx.count("operands_with_decimal_magnitude")
+            return Q(Decimal(repr(mag)), u)   # the same reading, handed over as a Decimal
         return Q(mag, u)
 
     def overlaps(got, want, tol_abs):
@@ -58,7 +62,7 @@ def run(ctx):
             continue
         if not orc.knows(ua):
             continue
-        a = Q(pools.magnitude(rng, kind=rng.choice(["int", "float"]), allow_zero=False), ua)
+        a = Q(pools.magnitude(rng, kind=rng.choice(["int", "float", "float", "decimal"]), allow_zero=False), ua)
         alo, ahi, _ = si(a)
         amid = (alo + ahi) / 2
         if not (Fraction(1, 10**120) < abs(amid) < 10**120):
@@ -76,7 +80,7 @@ def run(ctx):
         else:
             fb = pools.random_factors(rng, max_factors=2, hostile=0.2, physical_only=True)
             try:
-                b = Q(pools.magnitude(rng, kind=rng.choice(["int", "float"]), allow_zero=False), mdl.eval_real(pools.factors_term(fb)))
+                b = Q(pools.magnitude(rng, kind=rng.choice(["int", "float", "float", "decimal"]), allow_zero=False), mdl.eval_real(pools.factors_term(fb)))
             except Exception:
                 continue
             ops = [("mul", operator.mul), ("truediv", operator.truediv), ("pow", None)]
